@@ -94,7 +94,7 @@ func RunC10(tier string) int {
 	// the lock file fails), then an ordinary build
 	c10LockLeftBehind(run, tierN(tier, 20, 120))
 	// a build interrupted while it waits for the lock must leave the holder's lock alone
-	c10InterruptedWaiter(run, tierN(tier, 8, 60))
+	c10InterruptedWaiter(run, tierN(tier, 9, 60))
 	run.Assume("the controller serialises the steps: 'both in the critical section' is observed at a point of the schedule, not inferred from timestamps; waiting contenders sleep their real 1 s")
 	run.Assume("a lock file naming a live unrelated PID (PID reuse) is not generated: the statement speaks about locks left by dead processes")
 	return run.Finish()
